@@ -178,17 +178,21 @@ pub fn plan(seed: u64, corpus: &[Input], thorough: bool) -> Plan {
     let mut inputs: Vec<String> = vec![];
     let mut roles: Vec<&'static str> = vec![];
     let mut names: Vec<String> = vec![];
+    let mut fault_classes: Vec<Vec<&'static str>> = vec![];
     for t in 0..cfg.n_targets {
         if !corpus.is_empty() && rng.chance(cfg.corpus_pct, 100) {
             let c = rng.pick(corpus);
             inputs.push(c.text.clone());
             names.push(c.name.clone());
+            fault_classes.push(vec![]);
             roles.push("target/corpus");
         } else {
             let name = if rng.chance(1, 3) { gen::shared_type_name(&mut rng) } else { format!("G{}", t) };
             let opts = GenOpts { error_pct: 25, into_heavy: rng.chance(3, 10) };
-            inputs.push(gen::generate(&mut rng, &name, &opts));
+            let (text, classes) = gen::generate_ex(&mut rng, &name, &opts, &[]);
+            inputs.push(text);
             names.push(name);
+            fault_classes.push(classes);
             roles.push("target/generated");
         }
     }
@@ -217,9 +221,19 @@ pub fn plan(seed: u64, corpus: &[Input], thorough: bool) -> Plan {
                 }
             },
             2 => {
+                // an erroneous input; if a target is erroneous, often an *error sibling*: the same
+                // kind of mistake made again, differently (state left by one rejection meets the next)
                 let opts = GenOpts { error_pct: 100, into_heavy: rng.chance(1, 2) };
-                inputs.push(gen::generate(&mut rng, "PErr", &opts));
-                roles.push("polluter/err");
+                let with_faults: Vec<usize> = (0..n_targets).filter(|k| !fault_classes[*k].is_empty()).collect();
+                if !with_faults.is_empty() && rng.chance(2, 3) {
+                    let k = *rng.pick(&with_faults);
+                    let class = *rng.pick(&fault_classes[k]);
+                    inputs.push(gen::generate_ex(&mut rng, "PErr", &opts, &[class]).0);
+                    roles.push("polluter/err_sibling");
+                } else {
+                    inputs.push(gen::generate(&mut rng, "PErr", &opts));
+                    roles.push("polluter/err");
+                }
             },
             3 => {
                 inputs.push(PANIC_POLLUTER.to_string());
